@@ -422,6 +422,9 @@ def run_check(prop_id, tier, seed):
     budget = mod_meta['BUDGET'][tier]
     # one wall-clock budget for the whole run (all shards share the absolute deadline)
     time_limit = t0 + mod_meta.get('TIME_LIMIT', {}).get(tier, 240 if tier == 'quick' else 3000)
+    if os.environ.get('VERIF_TIME_LIMIT'):
+        # a shorter wall-clock budget for exploratory runs (the run is then reported as truncated / inconclusive)
+        time_limit = min(time_limit, t0 + float(os.environ['VERIF_TIME_LIMIT']))
     nshards = NPROC if tier == 'quick' else NPROC * 4
     violations = []      # (bucket, replay path)
     known_lines = []
